@@ -665,3 +665,138 @@ impl Program {
         Ok(())
     }
 }
+
+// ---------------------------------------------------------------- renaming
+
+/// Rebuild a program with every name mention passed through `f` (mention by mention).
+pub fn map_names(p: &Program, f: &mut dyn FnMut(&Name) -> Name) -> Program {
+    Program { blocks: p.blocks.iter().map(|b| map_block(b, f)).collect() }
+}
+
+fn map_block(b: &[Stmt], f: &mut dyn FnMut(&Name) -> Name) -> Vec<Stmt> {
+    b.iter().map(|s| map_stmt(s, f)).collect()
+}
+
+fn map_ident(i: &Ident, f: &mut dyn FnMut(&Name) -> Name) -> Ident {
+    match i {
+        Ident::Name(n) => Ident::Name(f(n)),
+        Ident::Pronoun => Ident::Pronoun,
+    }
+}
+
+fn map_primary(p: &Primary, f: &mut dyn FnMut(&Name) -> Name) -> Primary {
+    match p {
+        Primary::Lit(l) => Primary::Lit(l.clone()),
+        Primary::Ident(i) => Primary::Ident(map_ident(i, f)),
+        Primary::Subscript(a, i) => {
+            let a2 = map_primary(a, f);
+            let i2 = map_primary(i, f);
+            Primary::Subscript(Box::new(a2), Box::new(i2))
+        }
+        Primary::Call(n, args) => {
+            let n2 = f(n);
+            Primary::Call(n2, args.iter().map(|a| map_expr(a, f)).collect())
+        }
+        Primary::Pop(p) => Primary::Pop(Box::new(map_primary(p, f))),
+    }
+}
+
+fn map_expr(e: &Expr, f: &mut dyn FnMut(&Name) -> Name) -> Expr {
+    match e {
+        Expr::Primary(p) => Expr::Primary(map_primary(p, f)),
+        Expr::Unary { op, operand } => Expr::Unary { op: *op, operand: Box::new(map_expr(operand, f)) },
+        Expr::Binary { op, lhs, rhs } => {
+            let l = map_expr(lhs, f);
+            Expr::Binary { op: *op, lhs: Box::new(l), rhs: rhs.iter().map(|r| map_expr(r, f)).collect() }
+        }
+    }
+}
+
+fn map_lhs(l: &Lhs, f: &mut dyn FnMut(&Name) -> Name) -> Lhs {
+    match l {
+        Lhs::Ident(i) => Lhs::Ident(map_ident(i, f)),
+        Lhs::Subscript(a, i) => {
+            let a2 = map_primary(a, f);
+            let i2 = map_primary(i, f);
+            Lhs::Subscript(Box::new(a2), Box::new(i2))
+        }
+    }
+}
+
+fn map_stmt(s: &Stmt, f: &mut dyn FnMut(&Name) -> Name) -> Stmt {
+    match s {
+        Stmt::Assign { dest, value, op } => {
+            let d = map_lhs(dest, f);
+            Stmt::Assign { dest: d, value: value.iter().map(|e| map_expr(e, f)).collect(), op: *op }
+        }
+        Stmt::PoeticNum { dest, rhs } => Stmt::PoeticNum {
+            dest: map_lhs(dest, f),
+            rhs: match rhs {
+                PoeticRhs::Expr(e) => PoeticRhs::Expr(map_expr(e, f)),
+                PoeticRhs::Literal(l) => PoeticRhs::Literal(l.clone()),
+            },
+        },
+        Stmt::PoeticStr { dest, text } => Stmt::PoeticStr { dest: map_lhs(dest, f), text: text.clone() },
+        Stmt::If { cond, then, els } => {
+            let c = map_expr(cond, f);
+            let t = map_block(then, f);
+            Stmt::If { cond: c, then: t, els: els.as_ref().map(|e| map_block(e, f)) }
+        }
+        Stmt::While { cond, body } => {
+            let c = map_expr(cond, f);
+            Stmt::While { cond: c, body: map_block(body, f) }
+        }
+        Stmt::Until { cond, body } => {
+            let c = map_expr(cond, f);
+            Stmt::Until { cond: c, body: map_block(body, f) }
+        }
+        Stmt::Inc { dest, amount } => Stmt::Inc { dest: map_ident(dest, f), amount: *amount },
+        Stmt::Dec { dest, amount } => Stmt::Dec { dest: map_ident(dest, f), amount: *amount },
+        Stmt::Input { dest } => Stmt::Input { dest: dest.as_ref().map(|d| map_lhs(d, f)) },
+        Stmt::Output { value } => Stmt::Output { value: map_expr(value, f) },
+        Stmt::Mutation { op, operand, dest, param } => {
+            let o = map_primary(operand, f);
+            let d = dest.as_ref().map(|d| map_lhs(d, f));
+            Stmt::Mutation { op: *op, operand: o, dest: d, param: param.as_ref().map(|p| map_expr(p, f)) }
+        }
+        Stmt::Rounding { dir, operand } => Stmt::Rounding { dir: *dir, operand: map_expr(operand, f) },
+        Stmt::Continue => Stmt::Continue,
+        Stmt::Break => Stmt::Break,
+        Stmt::Push { array, value } => {
+            let a = map_primary(array, f);
+            Stmt::Push {
+                array: a,
+                value: value.as_ref().map(|v| match v {
+                    PushRhs::List(es) => PushRhs::List(es.iter().map(|e| map_expr(e, f)).collect()),
+                    PushRhs::Poetic(p) => PushRhs::Poetic(p.clone()),
+                }),
+            }
+        }
+        Stmt::Pop { array, dest } => {
+            let a = map_primary(array, f);
+            Stmt::Pop { array: a, dest: dest.as_ref().map(|d| map_lhs(d, f)) }
+        }
+        Stmt::Return { value } => Stmt::Return { value: map_expr(value, f) },
+        Stmt::Function { name, params, body } => {
+            let n = f(name);
+            let ps = params.iter().map(|p| f(p)).collect();
+            Stmt::Function { name: n, params: ps, body: map_block(body, f) }
+        }
+        Stmt::Call { name, args } => {
+            let n = f(name);
+            Stmt::Call { name: n, args: args.iter().map(|a| map_expr(a, f)).collect() }
+        }
+    }
+}
+
+/// all distinct variables (by key) mentioned in a program, in order of first mention
+pub fn collect_names(p: &Program) -> Vec<Name> {
+    let mut seen: Vec<Name> = vec![];
+    let _ = map_names(p, &mut |n| {
+        if !seen.iter().any(|s| s.key() == n.key()) {
+            seen.push(n.clone());
+        }
+        n.clone()
+    });
+    seen
+}
